@@ -2,25 +2,31 @@
 // pdfcpu import). It understands exactly the following pieces and FAILS (exit 1)
 // on anything else:
 //
-//	-config <model/configuration.go>
-//	    the const block `NAME CommandMode = iota` + following names  (pure iota,
-//	    no expressions, no blanks): every constant becomes `Definition CM_NAME : Z := n.`
-//	    and `all_modes` lists them in order.
-//	-crypto <pdfcpu/crypto.go>
-//	    var perm = map[model.CommandMode]struct{ f1, f2 int }{ model.X: {a, b}, ... }
-//	    (positional or keyed integer-literal elements; field names must be exactly
-//	    extract, modify in some order; duplicate keys are rejected)
-//	    -> `perm_table : list (Z * (Z * Z))` as (mode, (extract, modify)) in source order;
-//	    func maskExtract / maskModify of the fixed shape
-//	        p, ok := perm[mode]
-//	        if !ok || p.FIELD == 0 { return 0 }
-//	        if secHandlerRev CMP LIT { return LIT }
-//	        return LIT
-//	    -> Gallina definitions of the same name (FIELD, CMP and the literals are
-//	    taken from the source, so swapping a field or changing a mask shows up).
-//	-read <pdfcpu/read.go>
-//	    func needsOwnerAndUserPassword(cmd) { return cmd == model.A || cmd == model.B ... }
-//	    -> Gallina boolean definition.
+//		-config <model/configuration.go>
+//		    the const block `NAME CommandMode = iota` + following names  (pure iota,
+//		    no expressions, no blanks): every constant becomes `Definition CM_NAME : Z := n.`
+//		    and `all_modes` lists them in order.
+//		-crypto <pdfcpu/crypto.go>
+//		    var perm = map[model.CommandMode]struct{ f1, f2 int }{ model.X: {a, b}, ... }
+//		    (positional or keyed integer-literal elements; field names must be exactly
+//		    extract, modify in some order; duplicate keys are rejected)
+//		    -> `perm_table : list (Z * (Z * Z))` as (mode, (extract, modify)) in source order;
+//		    func maskExtract / maskModify of the fixed shape
+//		        p, ok := perm[mode]
+//		        if !ok || p.FIELD == 0 { return 0 }
+//		        if secHandlerRev CMP LIT { return LIT }
+//		        return LIT
+//		    -> Gallina definitions of the same name (FIELD, CMP and the literals are
+//		    taken from the source, so swapping a field or changing a mask shows up).
+//		-read <pdfcpu/read.go>
+//		    func needsOwnerAndUserPassword(cmd) { return cmd == model.A || cmd == model.B ... }
+//		    -> Gallina boolean definition.
+//
+//	  -api <pkg/api>, -cli <pkg/cli>
+//	      every non-test file: each assignment `<x>.Cmd = E` (and, in pkg/cli, each `Command{Mode: E}`) where E is
+//	      model.X, a call of a same-package helper that only returns model constants, or a local variable only
+//	      assigned such values (anything else fails; `cmd.Conf.Cmd = cmd.Mode` is accepted in cli.Dispatch only)
+//	      -> api_entry_modes / cli_command_modes (function -> constants); var dispatchTable -> cli_dispatch.
 //
 // Semantics assigned: Go int values are Z (the masks are small non-negative
 // literals and the revision is compared, never computed with, so no wrap-around
@@ -35,6 +41,7 @@ import (
 	"go/token"
 	"os"
 	"path/filepath"
+	"sort"
 	"strconv"
 	"strings"
 )
@@ -699,14 +706,341 @@ func ownerGuard(f *ast.File, name string) string {
 	return fmt.Sprintf("(* %s (%s starts with `if len(ctx.OwnerPW) == 0 { return false, nil }`: without a supplied owner\n   password the owner is not authenticated, whatever /O contains) *)\nDefinition %s_noOwnerPW (opw : list N) : bool := pw_empty opw.\n", pos(is), name, name)
 }
 
+// ---------------------------------------------------------------- entry points -> command mode
+
+// pkgFiles parses every non-test .go file of dir.
+func pkgFiles(dir string) []*ast.File {
+	ents, err := os.ReadDir(dir)
+	if err != nil {
+		die("%v", err)
+	}
+	var fs []*ast.File
+	for _, e := range ents {
+		n := e.Name()
+		if e.IsDir() || !strings.HasSuffix(n, ".go") || strings.HasSuffix(n, "_test.go") {
+			continue
+		}
+		fs = append(fs, parse(filepath.Join(dir, n)))
+	}
+	if len(fs) == 0 {
+		die("%s: no Go files", dir)
+	}
+	return fs
+}
+
+type modeSet map[string]bool
+
+func (m modeSet) sorted(known map[string]int) []string {
+	var l []string
+	for k := range m {
+		l = append(l, k)
+	}
+	sort.Slice(l, func(i, j int) bool { return known[l[i]] < known[l[j]] })
+	return l
+}
+
+// constReturns: a helper function all of whose return statements return model.<CommandMode constant>
+// (body made of if statements and returns only), e.g. addAttachmentsCommandMode.
+func constReturns(fd *ast.FuncDecl, known map[string]int) (modeSet, bool) {
+	out := modeSet{}
+	ok := true
+	var walk func(list []ast.Stmt)
+	walk = func(list []ast.Stmt) {
+		for _, st := range list {
+			switch x := st.(type) {
+			case *ast.ReturnStmt:
+				if len(x.Results) != 1 {
+					ok = false
+					return
+				}
+				m, isMode := modeSel(x.Results[0], known)
+				if !isMode {
+					ok = false
+					return
+				}
+				out[m] = true
+			case *ast.IfStmt:
+				if x.Init != nil {
+					ok = false
+					return
+				}
+				walk(x.Body.List)
+				if x.Else != nil {
+					if b, isBlock := x.Else.(*ast.BlockStmt); isBlock {
+						walk(b.List)
+					} else {
+						ok = false
+					}
+				}
+			default:
+				ok = false
+			}
+		}
+	}
+	walk(fd.Body.List)
+	return out, ok && len(out) > 0
+}
+
+// resolveModes: the set of CommandMode constants an expression can denote inside fd: model.X, a call of a
+// constReturns helper of the same package, or a local variable that is only ever assigned such expressions.
+func resolveModes(e ast.Expr, fd *ast.FuncDecl, funcs map[string]*ast.FuncDecl, known map[string]int, depth int) modeSet {
+	if depth > 3 {
+		die("%s: command mode expression too deep", pos(e))
+	}
+	if m, ok := modeSel(e, known); ok {
+		return modeSet{m: true}
+	}
+	if c, ok := e.(*ast.CallExpr); ok {
+		if id, ok := c.Fun.(*ast.Ident); ok {
+			if h, ok := funcs[id.Name]; ok {
+				if ms, ok := constReturns(h, known); ok {
+					return ms
+				}
+			}
+		}
+		die("%s: command mode computed by a call that is not a constant-returning helper", pos(e))
+	}
+	if id, ok := e.(*ast.Ident); ok {
+		out := modeSet{}
+		n := 0
+		ast.Inspect(fd.Body, func(x ast.Node) bool {
+			as, ok := x.(*ast.AssignStmt)
+			if !ok {
+				return true
+			}
+			for i, l := range as.Lhs {
+				if isIdent(l, id.Name) {
+					if len(as.Lhs) != len(as.Rhs) {
+						die("%s: multi-value assignment to %s", pos(as), id.Name)
+					}
+					for k := range resolveModes(as.Rhs[i], fd, funcs, known, depth+1) {
+						out[k] = true
+					}
+					n++
+				}
+			}
+			return true
+		})
+		if n == 0 {
+			die("%s: command mode taken from %s, which is not a local variable assigned constants", pos(e), id.Name)
+		}
+		return out
+	}
+	die("%s: command mode expression not understood", pos(e))
+	return nil
+}
+
+func funcName(fd *ast.FuncDecl) string {
+	if fd.Recv != nil {
+		die("%s: method %s assigns a command mode (only plain functions are understood)", pos(fd), fd.Name.Name)
+	}
+	return fd.Name.Name
+}
+
+func zlist(ms []string) string {
+	var l []string
+	for _, m := range ms {
+		l = append(l, "CM_"+m)
+	}
+	return "[" + strings.Join(l, "; ") + "]"
+}
+
+// entryModes: for every function of the package, the constants assigned to `<x>.Cmd` (api) and, for cli, also the
+// constants given to the Mode field of a Command literal. passThrough: `cmd.Conf.Cmd = cmd.Mode` is accepted in
+// exactly that function (cli.Dispatch).
+func entryModes(files []*ast.File, known map[string]int, passThrough string) (cmds, modes map[string]modeSet) {
+	funcs := map[string]*ast.FuncDecl{}
+	for _, f := range files {
+		for _, d := range f.Decls {
+			if fd, ok := d.(*ast.FuncDecl); ok && fd.Recv == nil && fd.Body != nil {
+				funcs[fd.Name.Name] = fd
+			}
+		}
+	}
+	cmds, modes = map[string]modeSet{}, map[string]modeSet{}
+	for _, f := range files {
+		for _, d := range f.Decls {
+			fd, ok := d.(*ast.FuncDecl)
+			if !ok || fd.Body == nil {
+				continue
+			}
+			ast.Inspect(fd.Body, func(x ast.Node) bool {
+				switch n := x.(type) {
+				case *ast.FuncLit:
+					// closures are walked too (same function name)
+					return true
+				case *ast.AssignStmt:
+					for i, l := range n.Lhs {
+						sel, ok := l.(*ast.SelectorExpr)
+						if !ok || sel.Sel.Name != "Cmd" {
+							continue
+						}
+						if len(n.Lhs) != len(n.Rhs) {
+							die("%s: multi-value assignment to .Cmd", pos(n))
+						}
+						name := funcName(fd)
+						if rs, ok := n.Rhs[i].(*ast.SelectorExpr); ok && rs.Sel.Name == "Mode" && isIdent(rs.X, "cmd") {
+							if name != passThrough {
+								die("%s: %s copies cmd.Mode into .Cmd; only %s may do that", pos(n), name, passThrough)
+							}
+							continue
+						}
+						if cmds[name] == nil {
+							cmds[name] = modeSet{}
+						}
+						for k := range resolveModes(n.Rhs[i], fd, funcs, known, 0) {
+							cmds[name][k] = true
+						}
+					}
+				case *ast.CompositeLit:
+					isCommand := false
+					switch t := n.Type.(type) {
+					case *ast.Ident:
+						isCommand = t.Name == "Command"
+					}
+					if !isCommand {
+						return true
+					}
+					for _, el := range n.Elts {
+						kv, ok := el.(*ast.KeyValueExpr)
+						if !ok || !isIdent(kv.Key, "Mode") {
+							continue
+						}
+						name := funcName(fd)
+						if modes[name] == nil {
+							modes[name] = modeSet{}
+						}
+						for k := range resolveModes(kv.Value, fd, funcs, known, 0) {
+							modes[name][k] = true
+						}
+					}
+				}
+				return true
+			})
+		}
+	}
+	return
+}
+
+func sortedKeys(m map[string]modeSet) []string {
+	var l []string
+	for k := range m {
+		l = append(l, k)
+	}
+	sort.Strings(l)
+	return l
+}
+
+func apiTable(dir string, known map[string]int) string {
+	cmds, _ := entryModes(pkgFiles(dir), known, "")
+	if len(cmds) == 0 {
+		die("%s: no function assigns a command mode", dir)
+	}
+	var sb strings.Builder
+	sb.WriteString("(* pkg/api: every function that assigns `<conf>.Cmd`, with the CommandMode constants it can assign\n   (sorted by function name) *)\n")
+	sb.WriteString("Definition api_entry_modes : list (string * list Z) :=\n  [")
+	for i, n := range sortedKeys(cmds) {
+		if i > 0 {
+			sb.WriteString(";\n   ")
+		}
+		fmt.Fprintf(&sb, "(%q%%string, %s)", n, zlist(cmds[n].sorted(known)))
+	}
+	sb.WriteString("].\n\n(* the same table without the names (for the extracted model: Coq strings are not extracted) *)\n")
+	sb.WriteString("Definition api_entry_mode_lists : list (list Z) :=\n  [")
+	for i, n := range sortedKeys(cmds) {
+		if i > 0 {
+			sb.WriteString("; ")
+			if i%4 == 0 {
+				sb.WriteString("\n   ")
+			}
+		}
+		sb.WriteString(zlist(cmds[n].sorted(known)))
+	}
+	sb.WriteString("].\n")
+	return sb.String()
+}
+
+func cliTables(dir string, known map[string]int) string {
+	files := pkgFiles(dir)
+	cmds, modes := entryModes(files, known, "Dispatch")
+	var sb strings.Builder
+	sb.WriteString("(* pkg/cli: every function that assigns `<conf>.Cmd` and/or builds a Command{Mode: ...}:\n   (function, (constants assigned to .Cmd, constants given to Mode)), sorted by function name *)\n")
+	sb.WriteString("Definition cli_command_modes : list (string * (list Z * list Z)) :=\n  [")
+	names := map[string]modeSet{}
+	for k := range cmds {
+		names[k] = nil
+	}
+	for k := range modes {
+		names[k] = nil
+	}
+	for i, n := range sortedKeys(names) {
+		if i > 0 {
+			sb.WriteString(";\n   ")
+		}
+		fmt.Fprintf(&sb, "(%q%%string, (%s, %s))", n, zlist(cmds[n].sorted(known)), zlist(modes[n].sorted(known)))
+	}
+	sb.WriteString("].\n\n")
+	// dispatchTable
+	var lit *ast.CompositeLit
+	for _, f := range files {
+		for _, d := range f.Decls {
+			g, ok := d.(*ast.GenDecl)
+			if !ok || g.Tok != token.VAR {
+				continue
+			}
+			for _, sp := range g.Specs {
+				vs := sp.(*ast.ValueSpec)
+				for i, n := range vs.Names {
+					if n.Name == "dispatchTable" {
+						c, ok := vs.Values[i].(*ast.CompositeLit)
+						if !ok || lit != nil {
+							die("%s: dispatchTable is not a single composite literal", pos(vs))
+						}
+						lit = c
+					}
+				}
+			}
+		}
+	}
+	if lit == nil {
+		die("%s: var dispatchTable not found", dir)
+	}
+	sb.WriteString("(* pkg/cli/dispatch.go: var dispatchTable (command mode -> handler), source order *)\n")
+	sb.WriteString("Definition cli_dispatch : list (Z * string) :=\n  [")
+	seen := map[string]bool{}
+	for i, el := range lit.Elts {
+		kv, ok := el.(*ast.KeyValueExpr)
+		if !ok {
+			die("%s: dispatchTable element without key", pos(el))
+		}
+		m, ok := modeSel(kv.Key, known)
+		if !ok || seen[m] {
+			die("%s: dispatchTable key is not a fresh model.<CommandMode constant>", pos(kv.Key))
+		}
+		seen[m] = true
+		h, ok := kv.Value.(*ast.Ident)
+		if !ok {
+			die("%s: dispatchTable handler is not a function name", pos(kv.Value))
+		}
+		if i > 0 {
+			sb.WriteString(";\n   ")
+		}
+		fmt.Fprintf(&sb, "(CM_%s, %q%%string)", m, h.Name)
+	}
+	sb.WriteString("].\n")
+	return sb.String()
+}
+
 func main() {
 	out := flag.String("out", "", "output .v file")
 	config := flag.String("config", "", "path of pkg/pdfcpu/model/configuration.go")
 	crypto := flag.String("crypto", "", "path of pkg/pdfcpu/crypto.go")
 	read := flag.String("read", "", "path of pkg/pdfcpu/read.go")
+	apiDir := flag.String("api", "", "path of pkg/api")
+	cliDir := flag.String("cli", "", "path of pkg/cli")
 	flag.Parse()
-	if *out == "" || *config == "" || *crypto == "" || *read == "" || flag.NArg() != 0 {
-		die("usage: genc26 -config <configuration.go> -crypto <crypto.go> -read <read.go> -out <Generated.v>")
+	if *out == "" || *config == "" || *crypto == "" || *read == "" || *apiDir == "" || *cliDir == "" || flag.NArg() != 0 {
+		die("usage: genc26 -config <configuration.go> -crypto <crypto.go> -read <read.go> -api <pkg/api> -cli <pkg/cli> -out <Generated.v>")
 	}
 	names := commandModes(parse(*config))
 	known := map[string]int{}
@@ -724,11 +1058,13 @@ func main() {
 	nb := needsBoth(rf, known)
 	re := rejectsEncrypted(rf, known)
 	cg := credentialsGuard(rf)
+	at := apiTable(*apiDir, known)
+	ct := cliTables(*cliDir, known)
 	og := ownerGuard(cf, "validateOwnerPasswordAES256") + "\n" + ownerGuard(cf, "validateOwnerPasswordAES256Rev6")
 
 	var sb strings.Builder
 	sb.WriteString("(* GENERATED by /verif/go/cmd/genc26 from pkg/pdfcpu/model/configuration.go, pkg/pdfcpu/crypto.go and\n   pkg/pdfcpu/read.go on every run of ./check C26. Do not edit. *)\n")
-	sb.WriteString("From Coq Require Import ZArith NArith List Bool.\nImport ListNotations.\nOpen Scope Z_scope.\n\n")
+	sb.WriteString("From Coq Require Import ZArith NArith List Bool String.\nImport ListNotations.\nOpen Scope Z_scope.\n\n")
 	sb.WriteString("(* a Go string is the list of its bytes; s == \"\" (equivalently len(s) == 0) *)\nDefinition pw_empty (s : list N) : bool := match s with [] => true | _ :: _ => false end.\n\n")
 	sb.WriteString("(* model.CommandMode constants (iota order) *)\n")
 	for i, n := range names {
@@ -757,7 +1093,7 @@ func main() {
 	sb.WriteString("].\n\n")
 	sb.WriteString("(* Go map lookup `p, ok := perm[mode]` (keys are unique: checked by the generator and by the Go compiler) *)\n")
 	sb.WriteString("Fixpoint perm_lookup (l : list (Z * (Z * Z))) (mode : Z) : option (Z * Z) :=\n  match l with\n  | [] => None\n  | (k, v) :: tl => if (k =? mode) then Some v else perm_lookup tl mode\n  end.\n\n")
-	sb.WriteString(mE + "\n" + mM + "\n" + nb + "\n" + re + "\n" + cg + "\n" + og)
+	sb.WriteString(mE + "\n" + mM + "\n" + nb + "\n" + re + "\n" + cg + "\n" + og + "\n" + at + "\n" + ct)
 	if err := os.WriteFile(*out, []byte(sb.String()), 0o644); err != nil {
 		die("%v", err)
 	}
